@@ -28,3 +28,6 @@ MUTANTS = [
          old='                            elif isinstance(prop_schema_node.get("type"), list) and "null" in prop_schema_node["type"]:', new='                            elif isinstance(parsed_prop_schema_ir.type, list) and "null" in parsed_prop_schema_ir.type:'),
 ]
 MUTANTS.append(dict(name="string-format-typed-as-int", file='types/resolvers/schema_resolver.py', expect="R3.10", old='                "binary": "bytes",\n', new='                "binary": "bytes",\n                "int64": "int",\n'))
+MUTANTS.append(dict(name='meta-keys-ascii-escaped', file='core/writers/python_construct_renderer.py', expect='R3.11', old='writer.write_line(f"{json.dumps(api_field, ensure_ascii=False)}: {json.dumps(python_field)},")', new='writer.write_line(f"{json.dumps(api_field)}: {json.dumps(python_field)},")'))
+MUTANTS.append(dict(name='union-variants-tried-in-reverse', file='core/cattrs_converter.py', expect='R3.12', old='        for variant in dataclass_variants:\n', new='        for variant in reversed(dataclass_variants):\n'))
+MUTANTS.append(dict(name="decode-side-derives-camel-key", file="core/cattrs_converter.py", expect='R3.13', old='            json_key = python_name  # Default: no transformation\n', new='            json_key = snake_to_camel(python_name)  # Default\n', count=2, also="first-only"))
